@@ -128,13 +128,17 @@ fn colour_of(i: usize) -> (u8, u8, u8) {
     (10 + i as u8, 20 + 2 * i as u8, 30 + 3 * i as u8)
 }
 fn c19_case(id: usize, decls: &[DeclK], bg: bool) -> Case {
+    c19_case_pat(id, decls, bg, &[0, 1, 2, 3])
+}
+/// `pat[i]` = colour index used by declaration i (equal indices = equal values)
+fn c19_case_pat(id: usize, decls: &[DeclK], bg: bool, pat: &[usize]) -> Case {
     let prop = if bg { "background-color" } else { "color" };
     let mut agent = String::new();
     let mut user = String::new();
     let mut author = String::new();
     let mut inline = String::new();
     for (i, d) in decls.iter().enumerate() {
-        let (r, g_, b) = colour_of(i);
+        let (r, g_, b) = colour_of(pat[i]);
         let decl = format!("{}:#{:02x}{:02x}{:02x}{};", prop, r, g_, b, if d.important { " !important" } else { "" });
         match d.origin {
             0 => agent.push_str(&format!("{}{{{}}}", sel_text(d.spec), decl)),
@@ -156,7 +160,7 @@ fn c19_case(id: usize, decls: &[DeclK], bg: bool) -> Case {
         cfg.user_css.push(user);
     }
     let w = winner(decls);
-    let (r, g_, b) = colour_of(w);
+    let (r, g_, b) = colour_of(pat[w]);
     let mut c = mk_case(
         id,
         1,
@@ -199,6 +203,16 @@ fn gen_c19(tier: &str, rng: &mut Rng) -> Vec<Case> {
             let id = cases.len();
             cases.push(c19_case(id, &t, rng.chance(1, 4)));
         }
+    }
+    // triples in which two declarations carry the same value (AAB, ABA, BAA)
+    let ndup = if tier == "thorough" { 30000 } else { 3000 };
+    for _ in 0..ndup {
+        let t = [*rng.pick(&kinds), *rng.pick(&kinds), *rng.pick(&kinds)];
+        let pat: [usize; 4] = *rng.pick(&[[0, 0, 1, 3], [0, 1, 0, 3], [1, 0, 0, 3]]);
+        let id = cases.len();
+        let mut c = c19_case_pat(id, &t, false, &pat);
+        c.slice = "triples_equal_values";
+        cases.push(c);
     }
     // random sheets over nested documents: nearest enclosing element with a winning colour
     let nr = if tier == "thorough" { 20000 } else { 1500 };
@@ -577,9 +591,9 @@ fn nontrivial_c20(_c: &Case, r: &RunResult) -> bool {
 // ======================================================================
 // C17 CSS never breaks rendering; insignificant syntax
 // ======================================================================
-const SOUP: [&str; 44] = [
+const SOUP: [&str; 46] = [
     "p", "div", ".ca", "#id1", "{", "}", ";", ":", ",", ">", "*", " ", "\n", "/*", "*/", "color", "red", "#fff", "#12345", "rgb(", ")", "1", "2n+1",
-    ":nth-child(", "!important", "@media", "@import", "\"", "'", "\\", "url(", "[", "]", "(", "-", "+", ".", "0px", "50%", "background", "<!--", "-->", "e\u{301}", "中",
+    ":nth-child(", "!important", "@media", "@import", "/", "/*/", "\"", "'", "\\", "url(", "[", "]", "(", "-", "+", ".", "0px", "50%", "background", "<!--", "-->", "e\u{301}", "中",
 ];
 fn soup(rng: &mut Rng, n: usize) -> String {
     (0..n).map(|_| *rng.pick(&SOUP)).collect::<Vec<_>>().join("")
@@ -610,11 +624,15 @@ fn print_sheet(rng: &mut Rng, rules: &[Rule], style: usize) -> String {
         if style == 0 {
             String::new()
         } else {
-            match rng.below(5) {
+            match rng.below(9) {
                 0 => " ".into(),
                 1 => "\n  ".into(),
                 2 => "/* c */".into(),
                 3 => " /*x*/\t".into(),
+                4 => "/**/".into(),
+                5 => "/*/ p{color:red} */".into(),
+                6 => "/*** x{} ;; **/".into(),
+                7 => "/*/*/".into(),
                 _ => String::new(),
             }
         }
@@ -859,6 +877,26 @@ fn strip_style(v: &[H]) -> Vec<H> {
 fn gen_c18(tier: &str, rng: &mut Rng) -> Vec<Case> {
     let n = if tier == "thorough" { 60000 } else { 3000 };
     let mut cases = Vec::new();
+    // hiding through compound / combinator selectors over documents with repeated classes
+    // (nested look-alike ancestors): checked against the model, whose matcher is proved
+    let nc = if tier == "thorough" { 40000 } else { 2500 };
+    for _ in 0..nc {
+        let (html, _) = gen_doc(rng, GenOpts { classes: true, ids: true, tables: 1, links: true, wide: false, combining: false, imgs: false, max_depth: 4, ..Default::default() });
+        let np = rng.range(2, 3);
+        let mut parts = Vec::new();
+        for k in 0..np {
+            parts.push((if k > 0 && rng.chance(1, 3) { '>' } else { ' ' }, rand_compound(rng)));
+        }
+        let st = sel_to_text(&SelAst { parts });
+        let mut cfg = Cfg { deco: *rng.pick(&[0u8, 2]), ..Default::default() };
+        cfg.user_css.push(format!("{} {{ display: none; }}", st));
+        let w = rng.range(5, 100);
+        let route = if cfg.deco == 2 { 1 } else { 0 };
+        let id = cases.len();
+        let mut c = mk_case(id, route, cfg, w, html.into_bytes(), Some(route as u64), g("selector_hidden"), "compound_selectors");
+        c.group = 8_000_000 + id;
+        cases.push(c);
+    }
     for gi in 0..n {
         let o = GenOpts { ids: true, tables: 1, links: true, dl: true, wide: false, combining: false, imgs: false, ..Default::default() };
         let (_, ast) = gen_doc(rng, o);
@@ -930,7 +968,7 @@ fn check_c18(cases: &[Case], results: &[Option<RunResult>]) -> Vec<Violation> {
     v
 }
 fn nontrivial_c18(c: &Case, r: &RunResult) -> bool {
-    c.meta.role() == "hidden" && r.outcome.is_ok()
+    (c.meta.role() == "hidden" || c.meta.role() == "selector_hidden") && r.outcome.is_ok()
 }
 
 /// C17/C19/C20 observable: the colours of every token (plus the outcome kind).
